@@ -30,9 +30,13 @@ fn generate(rng: &mut Rng, index: u64) -> ConnScenario {
         _ => gen_addr(rng),
     };
     let expiry = *rng.pick(&[0u64, 1, 60, 21_600, 21_600, 1 << 63, u64::MAX]);
-    let wall = Wall { base_s: 1_800_000_000, jumps: vec![] };
+    // the client may take its time before it answers the authentication cookie request, and the wall
+    // clock may step meanwhile: the age that counts is the one at the moment the cookie is checked
+    let think_s: u64 = *rng.pick(&[0u64, 0, 0, 1, 2, 30, 3000]);
+    let jump: Option<(u64, i64)> = if think_s > 0 && rng.chance(1, 3) { Some((secs(think_s) / 2, *rng.pick(&[-7200i64, -1, 1, 61, 86_400]))) } else { None };
+    let wall = Wall { base_s: 1_800_000_000, jumps: jump.into_iter().collect() };
     // age relative to expiry
-    let now = wall.base_s;
+    let now = wall.at(secs(think_s));
     let ts = match rng.below(8) {
         0 => now,
         1 => now.saturating_sub(expiry.saturating_sub(1)),
@@ -120,6 +124,9 @@ fn generate(rng: &mut Rng, index: u64) -> ConnScenario {
         _ => {}
     }
     client.auth_cookie = presented;
+    if think_s > 0 {
+        client.login_think_ns = vec![0, secs(think_s)];
+    }
     let services = Services {
         auth: Script::always(Some(0), AuthRes::Profile { name: VOUCHED_NAME.into(), uuid: format!("{:032x}", 0xabcdu128), props: vec![] }),
         discovery: Script::always(Some(0), DiscRes::Targets(vec![gen_target(rng, 0)])),
@@ -132,7 +139,7 @@ fn generate(rng: &mut Rng, index: u64) -> ConnScenario {
         services,
         client,
         wplan: vec![],
-        cap_ns: secs(120),
+        cap_ns: secs(3600),
     };
     zero_time_noise(rng, &mut sc);
     sc
@@ -256,6 +263,12 @@ impl Check for C02 {
         h.write_str(&format!("{}|{:?}|{:?}", sc.client.intent, sc.cfg.secret.as_ref().map(|s| s.len()), sc.cfg.expiry));
         rep.trace_hash = h.0;
         *rep.faults.entry("cookie_variant_presented".into()).or_insert(0) += 1;
+        if sc.client.login_think_ns.iter().any(|t| *t > 0) {
+            *rep.faults.entry("cookie_answered_late".into()).or_insert(0) += 1;
+        }
+        if !sc.wall.jumps.is_empty() {
+            *rep.faults.entry("wall_clock_step_before_cookie_check".into()).or_insert(0) += 1;
+        }
         check(sc, &out, &mut rep);
         rep
     }
